@@ -26,10 +26,12 @@ class ShortLinkControl(BitsInterface):
         ts2_address: Optional[bitarray] = None,
     ):
         self.slco: SLCOs = slco
+        # the CRC bits are kept in the order they are sent (least significant bit first), as the
+        # generated ones below are
         self.crc_8bit: bitarray = (
             crc_8bit[:8]
             if isinstance(crc_8bit, bitarray)
-            else int2ba(crc_8bit, length=8)
+            else int2ba(crc_8bit, length=8, endian="little")
         )
         self.ts1_activity_id: Optional[ActivityID] = ts1_activity_id
         self.ts1_address: Optional[bitarray] = ts1_address
@@ -42,7 +44,9 @@ class ShortLinkControl(BitsInterface):
             )
             self.crc_ok: bool = True
         else:
-            self.crc_ok: bool = CRC8.check(self.as_bits()[:28], ba2int(self.crc_8bit))
+            self.crc_ok: bool = CRC8.check(
+                self.as_bits()[:28], ba2int(self.as_bits()[28:36][::-1])
+            )
 
     def __repr__(self) -> str:
         descr: str = f"[{self.slco}]"
